@@ -3,7 +3,7 @@
 ID="$1"; NAME="$2"; NEEDS="$3"; CAUGHT="$4"
 D=/verif/seeded/$NAME; mkdir -p "$D"
 cp /tmp/seed/out_$ID/patch.diff "$D/patch.diff"
-cp /tmp/seed/out_$ID/*.rs "$D/" 2>/dev/null
+cp /tmp/seed/out_$ID/*.rs /tmp/seed/out_$ID/*.sh "$D/" 2>/dev/null
 cp /tmp/seed/out_$ID/notes.txt "$D/notes.txt" 2>/dev/null
 python3 - "$ID" "$NAME" "$NEEDS" "$CAUGHT" <<'PY'
 import json,sys
